@@ -118,6 +118,8 @@ pub struct Plan<C> {
     pub cases: u64,
     /// bound on proptest's shrinking (each iteration re-executes the oracle)
     pub shrink_iters: u32,
+    /// decoder for raw fuzz inputs (`regressions/<id>/*.bin`, crash files of the fuzz targets)
+    pub decode_bytes: Option<fn(&[u8]) -> Option<C>>,
 }
 
 pub fn run_worker<C>(ctx: &WorkerCtx, plan: Plan<C>) -> WorkerResult
@@ -173,22 +175,33 @@ where
     // 1. committed regressions (worker 0 only)
     if ctx.index == 0 {
         for path in &ctx.regressions {
-            let text = match fs::read_to_string(path) {
-                Ok(t) => t,
-                Err(_) => continue,
-            };
-            let v: Value = match serde_json::from_str(&text) {
-                Ok(v) => v,
-                Err(e) => {
-                    eprintln!("regression file {} is not JSON: {}", path.display(), e);
-                    continue;
+            let case: C = if path.extension().map(|e| e == "bin").unwrap_or(false) {
+                // a raw fuzz input
+                match (plan.decode_bytes, fs::read(path)) {
+                    (Some(dec), Ok(bytes)) => match dec(&bytes) {
+                        Some(c) => c,
+                        None => continue,
+                    },
+                    _ => continue,
                 }
-            };
-            let case: C = match serde_json::from_value(v.get("case").cloned().unwrap_or(Value::Null)) {
-                Ok(c) => c,
-                Err(e) => {
-                    eprintln!("regression file {} does not hold a {} case: {}", path.display(), ctx.prop, e);
-                    continue;
+            } else {
+                let text = match fs::read_to_string(path) {
+                    Ok(t) => t,
+                    Err(_) => continue,
+                };
+                let v: Value = match serde_json::from_str(&text) {
+                    Ok(v) => v,
+                    Err(e) => {
+                        eprintln!("regression file {} is not JSON: {}", path.display(), e);
+                        continue;
+                    }
+                };
+                match serde_json::from_value(v.get("case").cloned().unwrap_or(Value::Null)) {
+                    Ok(c) => c,
+                    Err(e) => {
+                        eprintln!("regression file {} does not hold a {} case: {}", path.display(), ctx.prop, e);
+                        continue;
+                    }
                 }
             };
             result.regressions_replayed += 1;
@@ -323,7 +336,7 @@ pub fn load_known(prop: &str) -> Vec<(String, String)> {
 
 pub fn list_regressions(prop: &str) -> Vec<PathBuf> {
     let mut v: Vec<PathBuf> = fs::read_dir(verif_root().join("regressions").join(prop))
-        .map(|rd| rd.filter_map(|e| e.ok()).map(|e| e.path()).filter(|p| p.extension().map(|e| e == "json").unwrap_or(false)).collect())
+        .map(|rd| rd.filter_map(|e| e.ok()).map(|e| e.path()).filter(|p| p.extension().map(|e| e == "json" || e == "bin").unwrap_or(false)).collect())
         .unwrap_or_default();
     v.sort();
     v
